@@ -30,14 +30,41 @@ class VariantAdapter(tsrules.Adapter):
     derived = {'empty': lambda obs: obs[0] == -1}
     move_assign_empties_source = False     # a moved-from Variant keeps its (moved-from) alternative
 
-    def __init__(self, alt_types):
+    def __init__(self, alt_types, db=None, recq=None):
         self.alt_types = alt_types
         self.n = len(alt_types)
+        # storage path of alternative k, read off the record structure (the union member of the Variant, then for each level the
+        # nested-union member k times and the element member): scalar alternatives have no lifetime cell but still have a path
+        self.paths = None
+        if db is not None and recq in db.records:
+            paths = []
+            rec = db.records[recq]
+            u = [f for f in rec['fields'] if f.get('recunion')]
+            prefix = ()
+            while u:
+                prefix = prefix + (u[0]['n'],)
+                ur = db.records.get(u[0].get('rec') or u[0]['t'])
+                if ur is None:
+                    break
+                elem = [f for f in ur['fields'] if not f.get('recunion')]
+                if elem:
+                    paths.append(prefix + (elem[0]['n'],))
+                u = [f for f in ur['fields'] if f.get('recunion')]
+            if len(paths) == self.n:
+                self.paths = paths
+
+    def alt_path(self, k, alts):
+        if self.paths is not None:
+            return self.paths[k]
+        return alts[k]
 
     def expected_live(self, obs, alts):
         i = obs[0]
-        if isinstance(i, int) and 0 <= i < len(alts):
-            return [alts[i]]
+        if isinstance(i, int) and 0 <= i < self.n:
+            if self.paths is not None:
+                return [self.paths[i]] if self.paths[i] in alts else []     # scalar alternatives have no lifetime cell
+            if i < len(alts):
+                return [alts[i]]
         return []
 
     def arg_domain(self, p, fn):
@@ -48,6 +75,8 @@ class VariantAdapter(tsrules.Adapter):
         t = tsrules.strip_cvref(p['t'])
         if t == 'nop::EmptyVariant':
             return [('unk',)]
+        if t in self.alt_types or t in ('int', 'bool', 'float', 'double', 'long', 'unsigned int'):
+            return [('elem',)]          # the VALUE of a scalar alternative is not part of the abstract state
         return None
 
     max_other_ctors = 8
@@ -107,8 +136,8 @@ class VariantAdapter(tsrules.Adapter):
             else:
                 arg = visits[0][1]
                 if idx >= 0:
-                    if not (isinstance(arg, absx.Loc) and arg.path == ('A',) + alts[idx]):
-                        out.append('visitor received %r, the active alternative is %s' % (arg, '.'.join(alts[idx])))
+                    if not (isinstance(arg, absx.Loc) and arg.path == ('A',) + self.alt_path(idx, alts)):
+                        out.append('visitor received %r, the active alternative is %s' % (arg, '.'.join(self.alt_path(idx, alts))))
                 elif isinstance(arg, absx.Loc) and arg.path[0] == 'A':
                     out.append('visitor of an empty Variant received storage %r' % (arg,))
         if n == 'get':
@@ -119,7 +148,7 @@ class VariantAdapter(tsrules.Adapter):
                 k = int(m.group(1)) if m else None
             if k is not None:
                 if idx == k:
-                    if not (isinstance(rv, absx.Loc) and rv.path == ('A',) + alts[k]):
+                    if not (isinstance(rv, absx.Loc) and rv.path == ('A',) + self.alt_path(k, alts)):
                         out.append('get<%s>() returns %r while alternative %d is active' % (targ[:30], rv, k))
                 elif rv not in (0, None) or isinstance(rv, absx.Loc):
                     if isinstance(rv, absx.Loc):
@@ -153,11 +182,17 @@ def explore(chk, db, prefix=''):
         pass
     chk.extra['typestate'] = {}
     r = None
-    for n in want_arities:
-        q = cands[n]
+    # further targets: alternatives of mixed destructibility (the destruction walk) and mutually convertible scalar alternatives
+    # (copy / move must keep the source's alternative, not the first one constructible from its value)
+    extra = [q for q in ('nop::Variant<int, Tracked, bool>', 'nop::Variant<int, bool, float>') if q in db.records]
+    if len(extra) != 2:
+        chk.unanalysable(prefix + 'L', 'nop/types/variant.h', 'probe Variants <int, Tracked, bool> / <int, bool, float> not found')
+        return None
+    for n in list(want_arities) + extra:
+        q = cands[n] if n in cands else n
         r = db.records[q]
         alts = encrules.split_args(q[len('nop::Variant<'):-1])
-        ad = VariantAdapter(alts)
+        ad = VariantAdapter(alts, db, q)
         label = 'Variant<%s>' % ', '.join(tsrules.short(a).replace('std::vector<int, std::allocator<int>>', 'vector<int>').replace('std::string', 'string') for a in alts)
         try:
             ex = Ex(db, q, ad, label, max_states=80).run()
@@ -170,18 +205,46 @@ def explore(chk, db, prefix=''):
     return r, q
 
 
-def rules(chk, db):
-    tsrules.noexcept_rule(chk, db, 'NX', ('nop::Variant', 'nop::detail::Union'), minimum=0,
-                          text='no Variant / Union member that constructs, assigns or visits an alternative is declared noexcept unless every operation it calls is')
-    report.selftest(chk, lambda sc, fdb: tsrules.noexcept_rule(sc, fdb, 'NX', ('nop::fx::Holder',)), 'c12.cpp', {'NX': 1})
-    chk.rule('MO', 'index_ is declared (hence initialised) before value_', minimum=1)
-    got = explore(chk, db)
-    if got is None:
-        return
-    r, q = got
-    # BT: Union::Become selects the alternative by index, so it must construct through the TAGGED Construct overload;
-    # the untagged one searches for any alternative constructible from the arguments
-    chk.rule('BT', 'Union::Become(i, args...) constructs alternative i through Construct(TypeTag<alternative>, args...)', minimum=2)
+def element_assignment(chk, db, rule):
+    """AE: `variant = value` where the (decayed) type of value is one of the Variant's alternatives resolves to the overload that
+    stores exactly that alternative - the one that forwards to the tagged Assign(TypeTag<that type>, ...).  Read off the resolved
+    callee of every such assignment in the library (the visitors of the Variant-to-Variant assignments forward through it) and in
+    the probe drivers.  A cross-Variant template that is more specialised than operator=(T&&) would win for an alternative that
+    is itself a Variant and unwrap it."""
+    chk.rule(rule, 'assigning a value whose type is an alternative resolves to the element assignment of that alternative (also when the alternative is itself a Variant)', minimum=6)
+    seen = {}
+    for f in list(db.fns) + list(getattr(db, 'drivers', [])):
+        if 'body' not in f:
+            continue
+        for c in ir.calls(f['body']):
+            cal = c.get('callee') or {}
+            if cal.get('n') != 'operator=' or cal.get('rect') != 'nop::Variant' or len(c.get('args', [])) < 1:
+                continue
+            arg = c['args'][-1]
+            at = tsrules.strip_cvref(ir.strip_all_casts(arg).get('t') or arg.get('t') or '')
+            rec = cal.get('rec') or ''
+            if not rec.startswith('nop::Variant<') or at == rec:
+                continue
+            alts = encrules.split_args(rec[len('nop::Variant<'):-1])
+            if at not in alts:
+                continue
+            target = db.callee(f, c)
+            if target is None or 'body' not in target:
+                continue
+            tagged = [x for x in ir.calls(target['body']) if ir.callee_name(x) == 'Assign' and x.get('args') and
+                      ('TypeTag<%s>' % at) in (ir.strip_all_casts(x['args'][0]).get('t') or x['args'][0].get('t') or '').replace('nop::detail::', '').replace('nop::Variant<' + rec[len('nop::Variant<'):-1] + '>::', '')]
+            ok = bool(tagged)
+            key = (f['file'], c.get('loc', {}).get('l'), c.get('loc', {}).get('c'), rec, at)
+            if key not in seen or (not ok and seen[key][0]):
+                seen[key] = (ok, f, target)
+    for (file, line, col, rec, at), (ok, f, target) in sorted(seen.items()):
+        chk.decide(ok, rule, '%s:%s:%s' % (file, line, col), '%s = %s resolves to %s' % (
+            tsrules.short(rec)[:60], tsrules.short(at)[:40], 'the element assignment (tagged Assign of that alternative)' if ok else
+            'operator= at %s:%s, which does not store that alternative by its type' % (target['file'], target['pat']['l'])), function=ir.fn_label(f))
+
+
+def tagging(chk, db, rule):
+    chk.rule(rule, 'Union::Become(i, args...) constructs alternative i through Construct(TypeTag<alternative>, args...); tagged Union operations stay tagged when they recurse', minimum=4)
     seen = set()
     for f in db.fns:
         if f.get('rect') == 'nop::detail::Union' and f['n'] == 'Become' and 'body' in f:
@@ -201,8 +264,43 @@ def rules(chk, db):
             if key in seen and okb:
                 continue
             seen.add(key)
-            chk.decide(okb, 'BT', facts.site(f) + ' ' + f['rec'].replace('nop::detail::', '')[:50], 'Union::Become: %s' % (why or 'tagged construction of the indexed alternative'),
+            chk.decide(okb, rule, facts.site(f) + ' ' + f['rec'].replace('nop::detail::', '')[:50], 'Union::Become: %s' % (why or 'tagged construction of the indexed alternative'),
                        function=ir.fn_label(f))
+    # a TAGGED union operation (first parameter TypeTag<T>) that recurses into the rest of the union stays tagged with the same T:
+    # dropping the tag selects the untagged overload, which picks the first alternative merely constructible / assignable from the value
+    seen_t = {}
+    for f in db.fns:
+        if f.get('rect') != 'nop::detail::Union' or 'body' not in f or not f['params'] or 'TypeTag<' not in f['params'][0]['t']:
+            continue
+        tag = f['params'][0]['t'].replace('const ', '').strip()
+        for c in ir.calls(f['body']):
+            if ir.callee_name(c) != f['n'] or (c.get('callee') or {}).get('rect') != 'nop::detail::Union':
+                continue
+            cal = db.callee(f, c)
+            first = (cal['params'][0]['t'] if cal and cal.get('params') else '').replace('const ', '').strip()
+            okt = first == tag
+            key = (f['file'], f['pat']['l'], c.get('loc', {}).get('l'))
+            if key not in seen_t or (not okt and seen_t[key][0]):
+                seen_t[key] = (okt, f, first, tag)
+    for (file, line, cl), (okt, f, first, tag) in sorted(seen_t.items()):
+        chk.decide(okt, rule, '%s:%s' % (file, cl), 'Union::%s(%s, ...) recurses into %s' % (
+            f['n'], tag.replace('nop::detail::', '')[:40], 'the same tagged overload' if okt else 'the overload taking (%s...): the tag is dropped' % first[:40]),
+            function=ir.fn_label(f))
+
+
+def rules(chk, db):
+    tsrules.noexcept_rule(chk, db, 'NX', ('nop::Variant', 'nop::detail::Union'), minimum=0,
+                          text='no Variant / Union member that constructs, assigns or visits an alternative is declared noexcept unless every operation it calls is')
+    report.selftest(chk, lambda sc, fdb: tsrules.noexcept_rule(sc, fdb, 'NX', ('nop::fx::Holder',)), 'c12.cpp', {'NX': 1})
+    chk.rule('MO', 'index_ is declared (hence initialised) before value_', minimum=1)
+    got = explore(chk, db)
+    if got is None:
+        return
+    r, q = got
+    # BT: Union::Become selects the alternative by index, so it must construct through the TAGGED Construct overload;
+    # the untagged one searches for any alternative constructible from the arguments
+    tagging(chk, db, 'BT')
+    element_assignment(chk, db, 'AE')
     names = [f['n'] for f in r['fields']]
     flag = [f['n'] for f in r['fields'] if f.get('scalar')]
     store = [f['n'] for f in r['fields'] if f.get('recunion')]
